@@ -249,6 +249,8 @@ enum Outcome {
 struct Pending {
     req: usize,
     slot: Rc<RefCell<Slot>>,
+    /// task that submitted the request
+    task: usize,
 }
 
 #[derive(Clone, Debug, Default)]
@@ -274,6 +276,13 @@ pub struct Knobs {
     pub fifo_pct: u32,
     /// prefer polling ready tasks before completing requests
     pub poll_first_pct: u32,
+    /// > 0: priority schedule - every task of a batch gets a random
+    /// priority, the enabled action (poll of a ready task / completion of a
+    /// request) of the highest-priority task is always taken, and at this
+    /// many random steps the task that is running drops to the lowest
+    /// priority.  Lets one task run far ahead while another is stalled at
+    /// an arbitrary point, which uniform choices almost never produce.
+    pub pct_depth: u32,
 }
 
 impl Default for Knobs {
@@ -283,6 +292,7 @@ impl Default for Knobs {
             early_visible: false,
             fifo_pct: 0,
             poll_first_pct: 0,
+            pct_depth: 0,
         }
     }
 }
@@ -477,6 +487,28 @@ impl Sim {
         let start_steps = core.steps.get();
         let saved_task = core.cur_task.get();
         let _ = qcow2_rs::verif::take_last_probes();
+        // priority schedule: random priorities, change points at random steps
+        let pct_depth = core.knobs.borrow().pct_depth;
+        let mut prio: Vec<u64> = vec![0; n];
+        let mut change_at: Vec<u64> = vec![];
+        let mut low_water = 0u64;
+        if pct_depth > 0 && n > 1 {
+            let mut ch = core.ch.borrow_mut();
+            // a random permutation as priorities (higher runs first)
+            let mut order: Vec<usize> = (0..n).collect();
+            for i in (1..n).rev() {
+                let j = ch.pick(i as u64 + 1) as usize;
+                order.swap(i, j);
+            }
+            for (rank, t) in order.iter().enumerate() {
+                prio[*t] = 1000 + rank as u64;
+            }
+            low_water = 999;
+            for _ in 0..pct_depth {
+                // most batches take a few hundred steps
+                change_at.push(ch.pick(160));
+            }
+        }
 
         let result = loop {
             let ready_ids: Vec<usize> = {
@@ -514,6 +546,41 @@ impl Sim {
             };
             let idx = if total == 1 {
                 0
+            } else if pct_depth > 0 && n > 1 {
+                // the enabled action of the highest-priority task
+                let pend = core.pending.borrow();
+                let pick_best = |prio: &Vec<u64>| -> usize {
+                    let mut best: Option<(u64, usize)> = None;
+                    for (i, t) in ready_ids.iter().enumerate() {
+                        if best.map(|b| prio[*t] > b.0).unwrap_or(true) {
+                            best = Some((prio[*t], i));
+                        }
+                    }
+                    for (i, p) in pend.iter().enumerate() {
+                        let pt = if p.task < n { prio[p.task] } else { 0 };
+                        if best.map(|b| pt > b.0).unwrap_or(true) {
+                            best = Some((pt, ready_ids.len() + i));
+                        }
+                    }
+                    best.map(|b| b.1).unwrap_or(0)
+                };
+                let mut idx = pick_best(&prio);
+                let step_no = core.steps.get() - start_steps;
+                if change_at.contains(&step_no) {
+                    // the task about to act drops below everybody else: it
+                    // stalls right here while the others run
+                    let t = if idx < ready_ids.len() {
+                        ready_ids[idx]
+                    } else {
+                        pend[idx - ready_ids.len()].task
+                    };
+                    if t < n {
+                        prio[t] = low_water;
+                        low_water = low_water.saturating_sub(1);
+                    }
+                    idx = pick_best(&prio);
+                }
+                idx
             } else {
                 let mut ch = core.ch.borrow_mut();
                 if fifo_pct > 0 && ch.pick(100) < fifo_pct as u64 {
@@ -942,6 +1009,7 @@ impl Future for ReqFuture {
                 core.pending.borrow_mut().push(Pending {
                     req: idx,
                     slot: slot.clone(),
+                    task: core.cur_task.get(),
                 });
                 this.slot = Some(slot);
                 Poll::Pending
